@@ -354,10 +354,17 @@ fn any_node(x: &X, f: &dyn Fn(&X) -> bool) -> bool {
 /// Signature of a violation.  Two recorded findings are recognised by the trigger in the ORIGINAL
 /// expression (the exact precondition of the defective rewrite); everything else is keyed by the
 /// literal-abstracted shape of the rewrite, so that a different violation is still reported.
-pub fn signature(xo: Option<&X>, xs: Option<&X>, orig: &str, simp: &str, null_vs_bool: bool) -> String {
+pub fn signature(xo: Option<&X>, xs: Option<&X>, orig: &str, simp: &str, null_vs_bool: bool, err_introduced: bool) -> String {
     if let (Some(xo), Some(xs)) = (xo, xs) {
         // -(x & y), -(x | y): distribute_negation treats arithmetic negation as bitwise NOT
         if any_node(xo, &|n| matches!(n, X::Neg(e) if matches!(e.as_ref(), X::Bin { op: BinOp::BitAnd | BinOp::BitOr, .. }))) {
+            return "negation-distributed-over-bitwise-and-or".into();
+        }
+        // the same rewrite when the bitwise operand only appears after another simplification (e.g. a constant-folded CASE
+        // around it): the original negates something that contains & or |, the result is (-x) | (-y) or (-x) & (-y)
+        let neg_over_bitop = |n: &X| matches!(n, X::Neg(e) if any_node(e, &|m| matches!(m, X::Bin { op: BinOp::BitAnd | BinOp::BitOr, .. })));
+        let bitop_of_negs = |n: &X| matches!(n, X::Bin { op: BinOp::BitAnd | BinOp::BitOr, l, r } if matches!(l.as_ref(), X::Neg(_)) && matches!(r.as_ref(), X::Neg(_)));
+        if any_node(xo, &neg_over_bitop) && any_node(xs, &bitop_of_negs) {
             return "negation-distributed-over-bitwise-and-or".into();
         }
         // TRY_CAST(col AS narrower) compared with literal(s): the cast is unwrapped although it can yield NULL
@@ -372,6 +379,26 @@ pub fn signature(xo: Option<&X>, xs: Option<&X>, orig: &str, simp: &str, null_vs
         let has_try = |x: &X| any_node(x, &|n| matches!(n, X::Cast { try_: true, .. }));
         if any_node(xo, &fallible_try_cast) && !has_try(xs) {
             return "try_cast-unwrapped-in-comparison/fallible-integer-narrowing".into();
+        }
+        // the same defect with other fallible targets: an integer that does not fit the decimal's precision, a date or a
+        // coarser timestamp that overflows the finer timestamp unit
+        let fallible_try_cast_dec = |n: &X| match n {
+            X::Cast { e, to: Ty::Dec { p, s }, try_: true } => {
+                let (flo, fhi) = e.ty().min_max();
+                let digits = (*p as i32 - *s as i32).max(0) as u32;
+                e.ty().is_int() && (digits >= 38 || fhi >= 10i128.pow(digits) || flo <= -(10i128.pow(digits)))
+            }
+            _ => false,
+        };
+        if any_node(xo, &fallible_try_cast_dec) && !has_try(xs) {
+            return "try_cast-unwrapped-in-comparison/fallible-cast-to-decimal".into();
+        }
+        let fallible_try_cast_ts = |n: &X| match n {
+            X::Cast { e, to: Ty::Ts(u2), try_: true } => matches!(e.ty(), Ty::Date32 | Ty::Date64) || matches!(e.ty(), Ty::Ts(u1) if u1 < *u2),
+            _ => false,
+        };
+        if any_node(xo, &fallible_try_cast_ts) && !has_try(xs) {
+            return "try_cast-unwrapped-in-comparison/fallible-cast-to-timestamp".into();
         }
         let has_cast = |x: &X| any_node(x, &|n| matches!(n, X::Cast { .. }));
         // CAST / TRY_CAST of a decimal column to an integer or to fewer fractional digits is many-to-one,
@@ -407,6 +434,28 @@ pub fn signature(xo: Option<&X>, xs: Option<&X>, orig: &str, simp: &str, null_vs
         };
         if null_vs_bool && any_node(xo, &inlist_pair) {
             return "inlist-set-algebra/null-result-folded-to-boolean".into();
+        }
+        // x OR y OR x  =>  y OR x: the duplicate is dropped at its FIRST position, so an operand that the original
+        // short-circuited away is now evaluated first and its error surfaces
+        fn chain<'a>(x: &'a X, op: BinOp, out: &mut Vec<&'a X>) {
+            match x {
+                X::Bin { op: o, l, r } if *o == op => {
+                    chain(l, op, out);
+                    chain(r, op, out);
+                }
+                _ => out.push(x),
+            }
+        }
+        let dup_in_chain = |n: &X| match n {
+            X::Bin { op: op @ (BinOp::Or | BinOp::And), .. } => {
+                let mut items = vec![];
+                chain(n, *op, &mut items);
+                items.iter().enumerate().any(|(i, a)| items[i + 1..].iter().any(|b| a == b))
+            }
+            _ => false,
+        };
+        if err_introduced && any_node(xo, &dup_in_chain) {
+            return "duplicate-operand-of-and-or-dropped-at-its-first-position/error-no-longer-short-circuited".into();
         }
     }
     format!("{} => {}", shape(orig), shape(simp))
@@ -528,7 +577,8 @@ pub fn run_one(duo: &mut Duo, p: &Program, t: &mut Tally) {
             let xo = lx::expr_to_x(&coerced, &schema).ok();
             let xs = lx::expr_to_x(&simplified, &schema).ok();
             let nvb = null_mismatch(&v);
-            v["signature"] = json!(signature(xo.as_ref(), xs.as_ref(), &coerced.to_string(), &simplified.to_string(), nvb));
+            let erri = v["rewritten_value"].as_str().map(|s| s.starts_with("ERROR")).unwrap_or(false);
+            v["signature"] = json!(signature(xo.as_ref(), xs.as_ref(), &coerced.to_string(), &simplified.to_string(), nvb, erri));
             t.violations.push(v);
         }
     }
@@ -607,7 +657,8 @@ fn run_physical(duo: &mut Duo, p: &Program, coerced: &Expr, schema: &Arc<DFSchem
         Outcome::Violation(mut v) => {
             v["family"] = json!(format!("physical/{}", p.family));
             let nvb = null_mismatch(&v);
-            v["signature"] = json!(format!("physical: {}", signature(Some(&xo), Some(&xs), &phys.to_string(), &psimp.to_string(), nvb)));
+            let erri = v["rewritten_value"].as_str().map(|s| s.starts_with("ERROR")).unwrap_or(false);
+            v["signature"] = json!(format!("physical: {}", signature(Some(&xo), Some(&xs), &phys.to_string(), &psimp.to_string(), nvb, erri)));
             t.violations.push(v);
         }
     }
